@@ -945,7 +945,11 @@ class ConstantReferenceApplier(TreeListener):
 
         if tree.child:
             try:
-                self.extra_symbols[-1][str(tree)] = self.classes[-1].find_constant_symbol(tree)
+                # Work on a copy: the flat symbol is renamed and modified in place
+                # later on, and the symbol found belongs to the caller's tree
+                self.extra_symbols[-1][str(tree)] = copy.deepcopy(
+                    self.classes[-1].find_constant_symbol(tree)
+                )
             except (
                 KeyError,
                 ast.ClassNotFoundError,
